@@ -727,6 +727,7 @@ func (sessScenario) Run(s *simrt.Sim, plan interface{}, opts map[string]string) 
 			s.Counters["probe."+k] = v
 		}
 		s.Counters["sess.ops"] = w.ops
+		s.Counters["sess.est_step"] = w.estStep
 	})
 	if p.Crash != nil {
 		s.StepHook = w.stepHook
@@ -2034,6 +2035,45 @@ func (w *sessWorld) leakTags() map[string]string {
 		}
 	}
 	return tags
+}
+
+// Base / Sweep (C14 thorough): the same plan and seed with each fault kind placed over the steps of the base run.
+func (sessScenario) Base(plan interface{}) interface{} {
+	b, _ := json.Marshal(plan)
+	var q sessPlan
+	_ = json.Unmarshal(b, &q)
+	q.Crash = nil
+	return &q
+}
+
+func (sessScenario) Sweep(plan interface{}, base *RunRecord) []interface{} {
+	est := base.Counters["sess.est_step"]
+	total := base.Steps
+	if est <= 0 || total <= est {
+		return nil
+	}
+	var steps []int64
+	for i := int64(1); i <= 6; i++ {
+		steps = append(steps, -(est * i / 7)) // during the handshake
+	}
+	span := total - est
+	for i := int64(0); i < 14; i++ {
+		steps = append(steps, span*i/14)
+	}
+	var out []interface{}
+	for _, kind := range []string{"kill_client", "kill_server", "sever", "sever_rst", "close_client", "close_server", "close_both"} {
+		for _, at := range steps {
+			if at == 0 && kind != "sever" {
+				continue
+			}
+			b, _ := json.Marshal(plan)
+			var q sessPlan
+			_ = json.Unmarshal(b, &q)
+			q.Crash = &crashPlan{Kind: kind, AtStep: at, Twice: at%2 == 0}
+			out = append(out, &q)
+		}
+	}
+	return out
 }
 
 func (sessScenario) Post(plan interface{}, res *simrt.Result, rec *RunRecord) {
